@@ -58,8 +58,9 @@ def run_property(prop: str, tier: str, repo=None, quiet: bool = False, write_evi
                     ctx.error(f"internal error in {rule_fn.__name__}: {e!r} @ {tb[-3].strip() if len(tb) >= 3 else ''}")
             if tier == "thorough":
                 try:
-                    from .sweep import sweep_property
+                    from .sweep import corpus_property, sweep_property
                     sweep_property(ctx)
+                    corpus_property(ctx)
                 except Exception as e:
                     ctx.error(f"sensitivity sweep failed: {e!r}")
             if tier == "thorough" and hasattr(mod, "THOROUGH"):
